@@ -40,8 +40,14 @@ class Connection:
         "Line {} is already connected to a GFA instance".format(self))
     previous = gfa._search_duplicate(self)
     if previous:
-      if previous.virtual:
+      if previous.virtual and \
+          previous.record_type in ["\n", self.record_type]:
         return self._substitute_virtual_line(previous)
+      elif previous.virtual:
+        raise gfapy.NotUniqueError(
+          "Line: {}\n".format(str(self))+
+          "The line identifier is referenced by other lines\n"+
+          "as identifier of a line of type {}".format(previous.record_type))
       else:
         return self._process_not_unique(previous)
     else:
